@@ -6,6 +6,7 @@ import (
 	"fmt"
 	"go/token"
 	"go/types"
+	"strconv"
 	"strings"
 
 	"golang.org/x/tools/go/ssa"
@@ -68,8 +69,8 @@ func (e *Engine) onStore(c *FnCtx, st *State, l *Loc, v Val, pos token.Pos) {
 		}
 	}
 }
-func (e *Engine) onLoad(c *FnCtx, st *State, l *Loc, pos token.Pos) { c.guardElem(st, l, false, pos) }
-func (e *Engine) onAlloc(c *FnCtx, st *State, ref string, t types.Type)           {}
+func (e *Engine) onLoad(c *FnCtx, st *State, l *Loc, pos token.Pos)     { c.guardElem(st, l, false, pos) }
+func (e *Engine) onAlloc(c *FnCtx, st *State, ref string, t types.Type) {}
 func (e *Engine) onMapRead(c *FnCtx, st *State, m string, pos token.Pos) {
 	if mu, ok := c.guardOf[m]; ok {
 		o := c.obligation(st, "guard", "R.map", "(not (= "+c.lockState(st, mu)+" 0))", pos)
@@ -112,6 +113,14 @@ func (e *Engine) evalGhostCall(c *FnCtx, env *Env, x *ECall) (Val, bool) {
 		v, ok := c.lastCall[name]
 		if !ok {
 			panic(specError("lastcall(" + name + "): no such call on this path"))
+		}
+		if len(x.Args) > 1 {
+			// lastcall(callee, k): k-th result of a multi-valued callee
+			k, _ := strconv.Atoi(x.Args[1].(*EInt).V)
+			if k >= len(v.Tuple) {
+				panic(specError("lastcall(" + name + "," + x.Args[1].(*EInt).V + "): no such result"))
+			}
+			return v.Tuple[k], true
 		}
 		return v, true
 	case "cbfn":
